@@ -59,10 +59,10 @@ Proof.
 Qed.
 
 Lemma scan_found_rooted t i p j :
-  Forall wf_root (spec_roots t) -> c19_id_needs_escape t = false ->
+  Forall wf_root (spec_roots t) ->
   scan_for_inventory t i = Found p j -> j = i /\ Rooted t i p.
 Proof.
-  intros W K. unfold scan_for_inventory. rewrite (iter_some_wf _ t W K). intros H.
+  intros W. unfold scan_for_inventory. rewrite (iter_some_wf _ t W). intros H.
   apply first_ok_in, in_flat_map in H as ([p' ces] & Hr & Hx). cbn [fst] in Hx.
   apply in_flat_map in Hx as (k & Hk & Hx). destruct (bytes_eqb i k) eqn:E; [|destruct Hx].
   apply bytes_eqb_eq in E. subst k. destruct Hx as [Hx|[]]. injection Hx as -> ->.
@@ -110,15 +110,19 @@ Proof.
   apply existsb_exists. exists r'. split; [exact Hr'|]. now rewrite (root_is_congr _ _ r r' E1 E2).
 Qed.
 
+(** the class of repositories the handle theorems speak about: every object
+    written by rocfl's serialiser, ids pairwise different, names unique per
+    directory.  (Until 5a727de the class also had to exclude ids that need a
+    JSON escape.) *)
 Definition Good (t : tree) : Prop :=
-  WellFormedRepo t /\ names_unique t = true /\ c19_id_needs_escape t = false.
+  WellFormedRepo t /\ names_unique t = true.
 
 Lemma cache_sound_get_step c t i :
   Good t -> cache_sound c t = true -> cache_sound (snd (get_inventory None c t i)) t = true.
 Proof.
-  intros ([W _] & U & K) S. unfold get_inventory. destruct (cache_get c i); [exact S|].
+  intros ([W _] & U) S. unfold get_inventory. destruct (cache_get c i); [exact S|].
   destruct (scan_for_inventory t i) as [p j| | |] eqn:E; try exact S.
-  destruct (scan_found_rooted t i p j W K E) as [-> R]. cbn [snd cache_sound forallb fst].
+  destruct (scan_found_rooted t i p j W E) as [-> R]. cbn [snd cache_sound forallb fst].
   rewrite (root_is_of_rooted t i p R). exact S.
 Qed.
 
@@ -153,18 +157,16 @@ Section PurgeHandle.
   Hypothesis R : Rooted t i p.
 
   Let W : WellFormedRepo t := proj1 G.
-  Let U : names_unique t = true := proj1 (proj2 G).
-  Let K : c19_id_needs_escape t = false := proj2 (proj2 G).
+  Let U : names_unique t = true := proj2 G.
 
   Lemma rooted_in_walk : exists ces, In (p, ces) (walk t) /\ In i (root_id (p, ces)).
   Proof. destruct R as (ces & Hr & Hi). exists ces. rewrite walk_is_spec. now split. Qed.
 
   Lemma good_after_purge : Good (remove_at t p).
   Proof.
-    destruct rooted_in_walk as (ces & Hin & Hi). split; [|split].
+    destruct rooted_in_walk as (ces & Hin & Hi). split.
     - apply (purge_wf t p ces i W U Hin Hi).
     - apply names_unique_remove, U.
-    - apply (purge_no_escape t p ces i W U Hin Hi K).
   Qed.
 
   Lemma committed_after_purge :
@@ -195,12 +197,12 @@ Lemma find_root_nolayout c t i :
                cache_remove (snd (find_root None c t i)) i = cache_remove c i) /\
   (~ In i (committed_ids t) -> find_root None c t i = (None, c)).
 Proof.
-  intros ([W _] & U & K) S. unfold find_root. destruct (cache_get c i) as [p|] eqn:E.
+  intros ([W _] & U) S. unfold find_root. destruct (cache_get c i) as [p|] eqn:E.
   - pose proof (rooted_of_root_is t i p (cache_sound_get c t i p S E)) as R. split.
     + intros _. exists p. now split.
     + intros N. destruct (N (rooted_committed t i p R)).
-  - destruct (scan_spec t i W K) as (_ & A & B & _). split.
-    + intros H. destruct (A H) as [p Ep]. rewrite Ep. destruct (scan_found_rooted t i p i W K Ep) as [_ R].
+  - destruct (scan_spec t i W) as (_ & A & B & _). split.
+    + intros H. destruct (A H) as [p Ep]. rewrite Ep. destruct (scan_found_rooted t i p i W Ep) as [_ R].
       exists p. cbn [fst snd]. split; [exact R|]. split; [reflexivity| apply cache_remove_cons_same].
     + intros H. now rewrite (B H).
 Qed.
@@ -214,7 +216,7 @@ Proof.
   intros G S. destruct (find_root_nolayout c t i G S) as [A B]. unfold purge_object. split.
   - intros H. destruct (A H) as (p & R & E1 & E2). exists p. split; [exact R|].
     destruct (find_root None c t i) as [o c1]. cbn [fst snd] in *. subst o.
-    rewrite (purge_at_rooted t i p (proj1 (proj2 G)) R), E2. reflexivity.
+    rewrite (purge_at_rooted t i p (proj2 G) R), E2. reflexivity.
   - intros H. now rewrite (B H).
 Qed.
 
@@ -289,7 +291,7 @@ Lemma handle_nolayout t c i :
   (In i (committed_ids t) -> exists p, fst (get_inventory None c t i) = Found p i) /\
   (~ In i (committed_ids t) -> fst (get_inventory None c t i) = NotFound).
 Proof.
-  intros Rch ([W N] & U & K). apply get_inventory_nolayout; try assumption. apply reachable_sound, Rch.
+  intros Rch ([W N] & U). apply get_inventory_nolayout; try assumption. apply reachable_sound, Rch.
 Qed.
 
 Lemma handle_layout m t c i :
